@@ -11,6 +11,7 @@ import (
 	"verif/internal/hx"
 	"verif/internal/refdl"
 	"verif/internal/sup"
+	"verif/internal/wire"
 )
 
 // One biscuit.Unmarshaler value (the decoder a service keeps around) loading
@@ -133,6 +134,34 @@ func c07DecoderSpace() *sup.Space {
 			}
 			if len(base) == 0 && !c07CheckToken(w, t, sup2[j], nil, hj) {
 				return
+			}
+			if len(base) > 0 {
+				// the published symbol rule over a caller-supplied base table: a block's table holds
+				// the symbols that are new at that point - nothing of the base table, nothing twice
+				env, err := wire.DecodeEnvelope(sers[j])
+				if err != nil {
+					w.Violate("C07:reference-decoder-rejects-library-bytes", hj, err.Error(), "decodable")
+					return
+				}
+				seen := map[string]bool{}
+				for _, b := range base {
+					seen[b] = true
+				}
+				for bi, sb := range append([]wire.SignedBlock{env.Authority}, env.Blocks...) {
+					blk, err := wire.DecodeBlock(sb.Block)
+					if err != nil {
+						w.Violate("C07:block-not-decodable", hj, err.Error(), "decodable")
+						return
+					}
+					for _, sym := range blk.Symbols {
+						if seen[sym] {
+							w.Class("symbol-rule-broken")
+							w.Violate("C07:symbol-or-version-rule", hj, fmt.Sprintf("block %d declares %q again (base table %v)", bi, sym, []string(base)), "tables hold new symbols only")
+							return
+						}
+						seen[sym] = true
+					}
+				}
 			}
 		}
 		w.Class(fmt.Sprintf("faithful-%d-loads", len(ord)))
